@@ -44,7 +44,9 @@ func verifSpareURNs() []urns.URN {
 }
 
 func VerifC09_SharedAssets() {
-	env := envs.NewBuilder().WithAllowedLanguages("eng", "spa").Build()
+	// (every input collation: each has its own text transform, which the router tests of all sessions go through)
+	collation := []envs.Collation{envs.CollationDefault, envs.CollationConfusables, envs.CollationArabicVariants}[zzverif.Choice("input-collation", 3)]
+	env := envs.NewBuilder().WithAllowedLanguages("eng", "spa").WithInputCollation(collation).Build()
 	sa := verifNewAssets()
 	sa.fields = flows.NewFieldAssets([]assets.Field{&verifFieldAsset{"nick", assets.FieldTypeText}})
 	g := flows.VerifQueryGroup(env, sa.fields, "b0000000-0000-4000-8000-000000000001", "Named", contactql.NewCondition(contactql.PropertyTypeAttribute, contactql.AttributeName, contactql.OpNotEqual, ""))
